@@ -481,6 +481,8 @@ class World:
         if kind == "user_enter":
             if self.model._contexts:
                 return
+            self.pre_user_ctx_snap = S.snap(self.model)
+            self.ref_before_user_ctx = self.ref.clone()
             self.model.__enter__()
             # the user context already holds undo entries
             rid = op.get("r")
@@ -501,6 +503,16 @@ class World:
                     self.model.objective_direction = op.get("dir", "max")
                     self.model.slim_optimize()
                 self.stats["probe:aged_parent"] += 1
+            return
+        if kind == "bg_knockout":
+            gid = op.get("g")
+            if gid and self.model.genes.has_id(gid):
+                # a permanent background knock-out made before any analysis: part of the model the analyses must leave alone
+                self.model.genes.get_by_id(gid).knock_out()
+                self.ref._knock_gene(gid)
+                self.exact_cache.clear()
+                self.refs.clear()
+                self.stats["probe:background_knockout"] += 1
             return
         if kind == "edit":
             rid = op.get("r")
@@ -574,8 +586,9 @@ class World:
                                               "diff(before,after)": d[:8], "fault": op.get("fault")}, culprit=_pub(op))
             self.stats["probe:unchanged_checked"] += 1
         elif S.diff(before, after, limit=1):
-            # other properties need a sane model to continue; stop the run quietly
-            raise StopRun()
+            # restoration is C13's business.  The value oracles of this property keep judging against the reference as it stands
+            # (what a leaked change does to later results *is* their business); only an unreadable state ends the run
+            self.stats["model_changed_by_analysis"] += 1
         if raised is not None and not faulted and isinstance(raised, (AssertionError, RuntimeError)) and "SimPool" in str(raised):
             raise raised
         key = canon_key(op)
@@ -842,6 +855,15 @@ class World:
             if d:
                 raise Violation("unchanged", {"what": "state inside the user's own context changed", "diff": d[:6]})
             self.stats["probe:user_context_still_intact"] += 1
+            # ... and leaving the user's block must bring back exactly the model of before the block: nothing an analysis
+            # recorded in the user's history may survive
+            self.model.__exit__(None, None, None)
+            back = S.snap(self.model)
+            d = S.diff(S.without_order(self.pre_user_ctx_snap), S.without_order(back))
+            if d:
+                raise Violation("unchanged", {"what": "leaving the user's own context (inside which analyses were called) does not restore "
+                                                      "the model of before the block", "diff(before_block,after_block)": d[:6]})
+            self.stats["probe:user_context_exit_restores"] += 1
 
 
 class StopRun(Exception):
@@ -891,7 +913,7 @@ def make_swarm(rng, prop, run_cfg):
     return {"max_mets": rng.randint(2, 5), "max_rxns": rng.randint(1, 5), "n_genes": rng.randint(2, 5),
             "p_rule": rng.choice([0.4, 0.7, 0.95]) if prop in ("C06", "C14", "C13") else 0.3,
             "p_infinite": rng.choice([0.0, 0.1, 0.3]), "solver": rng.choice(["glpk", "glpk", "glpk", "glpk_exact"]),
-            "user_ctx": rng.random() < 0.4, "aged": rng.random() < 0.5, "p_empty_objective": 0.12 if prop == "C13" else 0.04,
+            "user_ctx": rng.random() < 0.4, "aged": rng.random() < 0.5, "bg_knockout": rng.random() < 0.3, "p_empty_objective": 0.12 if prop == "C13" else 0.04,
             "platform": rng.choice(["Linux", "Linux", "Windows"]), "n_variants": rng.randint(2, 5)}
 
 
@@ -997,6 +1019,8 @@ def gen_ops(rng, W, prop, sw, run_cfg):
     """Generator of ops (a Python generator: each op is executed before the next one is produced)."""
     if sw["platform"] == "Windows":
         yield {"op": "platform", "name": "Windows"}
+    if sw.get("bg_knockout") and W.ref.genes:
+        yield {"op": "bg_knockout", "g": rng.choice(sorted(W.ref.genes))}
     if sw["aged"]:
         yield {"op": "age", "r": rng.choice(sorted(W.ref.rxns)), "dir": rng.choice(["max", "min"])}
     if sw["user_ctx"] and prop in ("C13",):
